@@ -12,8 +12,8 @@ Conventions (DESIGN.md section 4):
 * the pool: `sched_gsmtime_init()` links all `ARRAY_SIZE(sched_gsmtime_events)` elements into `inactive_evts`;
   an empty `inactive_evts` is the explicit outcome `-EBUSY` of `sched_gsmtime()`;
 * C integers with the declared widths: `uint32_t fn` (parameter and field: conversion modulo 2^32 at the call),
-  `uint16_t p3`, `fn + SCHEDULE_AHEAD` is computed in `unsigned int` (32 bit, wraps), `SCHEDULE_AHEAD -
-  SCHEDULE_LATENCY` in `int` and converted to the `uint8_t frame_offset` parameter; `int num`;
+  `uint16_t p3`, `fn_sched = (fn + SCHEDULE_AHEAD) % GSM_MAX_FN` with the sum computed in `unsigned int` (32 bit,
+  wraps) before the reduction, `SCHEDULE_AHEAD - SCHEDULE_LATENCY` in `int` and converted to the `uint8_t frame_offset` parameter; `int num`;
 * `const struct tdma_sched_item *si` is the array it points to (the item set as `tdma_schedule_set` will read
   it; the pointed-to memory is constant).  `NULL` (the zero-initialised field) is the empty array: every read
   from it is out of bounds (`Fault.oob` in `TdmaSched.scheduleSetLoop`);
@@ -94,8 +94,11 @@ def sched (g : GState) (si : List Item) (fn p3 : Nat) : GState × Int :=
     let evt : Event := { lh with fn := fn, si := si, p3 := p3 }
     (⟨insertSorted evt g.active, inactive⟩, 0)
 
-/-- `fn + SCHEDULE_AHEAD` (`uint32_t + int`, computed in `unsigned int`) -/
-def aheadOf (fn : Nat) : Nat := u32i ((fn : Int) + Gen.sgScheduleAhead)
+/-- `uint32_t fn_sched = (fn + SCHEDULE_AHEAD) % GSM_MAX_FN;` — the sum `uint32_t + int` is computed in
+`unsigned int` (32 bit, wraps), then reduced modulo the hyperframe; `% 0` is the outcome `Fault.divZero` -/
+def aheadOf (fn : Nat) : Except Fault Nat :=
+  if Gen.sgGsmMaxFn = 0 then .error .divZero
+  else .ok (u32 (u32i ((fn : Int) + Gen.sgScheduleAhead) % Gen.sgGsmMaxFn))
 
 /-- `SCHEDULE_AHEAD-SCHEDULE_LATENCY` as the `uint8_t frame_offset` argument -/
 def frameOffset : Nat := u8i (Gen.sgScheduleAhead - Gen.sgScheduleLatency)
@@ -111,7 +114,7 @@ structure ExecRes where
   calls : List Call
   deriving DecidableEq, Repr
 
-/-- the first `if` of the loop body: `if (evt->fn == fn + SCHEDULE_AHEAD) { ... }` -/
+/-- the first `if` of the loop body: `if (evt->fn == fn_sched) { ... }` -/
 def fireIf (tgt : Nat) (evt : Event) (r : ExecRes) : Except Fault ExecRes :=
   if evt.fn = tgt then do
     -- tdma_schedule_set(SCHEDULE_AHEAD-SCHEDULE_LATENCY, evt->si, evt->p3);   (result ignored)
@@ -125,7 +128,7 @@ def fireIf (tgt : Nat) (evt : Event) (r : ExecRes) : Except Fault ExecRes :=
 
 /-- the `llist_for_each_entry_safe(evt, evt2, &active_evts, list)` loop of `sched_gsmtime_execute`:
 `rest` = the entries from `evt` on.  The body has two independent `if`s (`} if (` — there is no `else`):
-the second one, `if (evt->fn > fn + SCHEDULE_AHEAD) break;`, is evaluated for every event. -/
+the second one, `if (evt->fn > fn_sched) break;`, is evaluated for every event. -/
 def execLoop (tgt : Nat) : (rest : List Event) → ExecRes → Except Fault ExecRes
   | [], r => .ok r
   | evt :: rest, r => do
@@ -139,7 +142,8 @@ def execLoop (tgt : Nat) : (rest : List Event) → ExecRes → Except Fault Exec
 /-- `sched_gsmtime_execute(fn)`: new lists, new TDMA scheduler state, the `int` result, the calls made -/
 def execute (g : GState) (s : Sched) (fn : Nat) : Except Fault (GState × Sched × Int × List Call) := do
   let fn := u32 fn
-  let r ← execLoop (aheadOf fn) g.active ⟨[], g.inactive, s, 0, []⟩
+  let fnSched ← aheadOf fn
+  let r ← execLoop fnSched g.active ⟨[], g.inactive, s, 0, []⟩
   return (⟨r.active, r.inactive⟩, r.tdma, r.num, r.calls)
 
 /-- the `llist_for_each_entry_safe` loop of `sched_gsmtime_reset`: every active event is unlinked and put at
